@@ -105,12 +105,28 @@ def ref_is_of_type(rel, v: Value, typ: Value, exclude_any: bool) -> bool:
     return ref_accepts(rel, typ, v)
 
 
-def ref_cond(node, rel, varmap, positions, env) -> bool:
+def ref_cond(node, rel, varmap, positions, env):
+    """-> (truth value, variable map holding inside the true branch).  The only narrowing that matters
+    for atomic arguments is the specification's 'normal narrowing rules' applied to an Any argument
+    that matched is_of_type (possible with exclude_any=False or against Any): it then has the tested
+    type; operands of `and` are evaluated left to right under that narrowing."""
     if isinstance(node, ast.BoolOp):
-        vals = [ref_cond(v, rel, varmap, positions, env) for v in node.values]
-        return all(vals) if isinstance(node.op, ast.And) else any(vals)
+        if isinstance(node.op, ast.And):
+            vm = varmap
+            for v in node.values:
+                ok, vm2 = ref_cond(v, rel, vm, positions, env)
+                if not ok:
+                    return False, varmap
+                vm = vm2
+            return True, vm
+        for v in node.values:
+            ok, vm2 = ref_cond(v, rel, varmap, positions, env)
+            if ok:
+                return True, vm2
+        return False, varmap
     if isinstance(node, ast.UnaryOp):
-        return not ref_cond(node.operand, rel, varmap, positions, env)
+        ok, _ = ref_cond(node.operand, rel, varmap, positions, env)
+        return (not ok), varmap
     if isinstance(node, ast.Call):
         name = node.func.id
         if name == "is_of_type":
@@ -118,28 +134,34 @@ def ref_cond(node, rel, varmap, positions, env) -> bool:
             for kw in node.keywords:
                 excl = kw.value.value
             typ = KnownValue(None) if isinstance(node.args[1], ast.Constant) else env[node.args[1].id]
-            return ref_is_of_type(rel, varmap[node.args[0].id], typ, excl)
+            arg = node.args[0].id
+            ok = ref_is_of_type(rel, varmap[arg], typ, excl)
+            if ok and _is_any(varmap[arg]) and not _is_any(typ):
+                vm = dict(varmap)
+                vm[arg] = typ
+                return True, vm
+            return ok, varmap
         pos = positions[node.args[0].id]
         provided_pos = isinstance(pos, int) or pos is ARGS
         provided_kw = isinstance(pos, str) or pos is KWARGS
         if name == "is_provided":
-            return provided_pos or provided_kw
+            return (provided_pos or provided_kw), varmap
         if name == "is_positional":
-            return provided_pos
+            return provided_pos, varmap
         if name == "is_keyword":
-            return provided_kw
+            return provided_kw, varmap
         raise AssertionError(name)
     if isinstance(node, ast.Compare):
         op = node.ops[0]
         if isinstance(node.left, ast.Attribute):
             ver = env["VER"].val
-            return sys.version_info >= ver
+            return (sys.version_info >= ver), varmap
         right = node.comparators[0]
         lit = KnownValue(right.value) if isinstance(right, ast.Constant) else env[right.id]
         res = ref_is_of_type(rel, varmap[node.left.id], lit, True)
         if isinstance(op, (ast.NotEq, ast.IsNot)):
-            return not res
-        return res
+            return (not res), varmap
+        return res, varmap
     raise AssertionError(ast.dump(node))
 
 
@@ -153,17 +175,9 @@ def ref_block(stmts, rel, varmap, positions, env, errors) -> Optional[Value]:
         if isinstance(st, ast.Pass):
             continue
         if isinstance(st, ast.If):
-            taken = ref_cond(st.test, rel, varmap, positions, env)
+            taken, vm_true = ref_cond(st.test, rel, varmap, positions, env)
             branch = st.body if taken else st.orelse
-            vm = varmap
-            t = st.test
-            if (taken and isinstance(t, ast.Call) and t.func.id == "is_of_type" and _is_any(varmap[t.args[0].id])
-                    and not isinstance(t.args[1], ast.Constant)):
-                # normal narrowing rules: an Any argument that matched (possible only with
-                # exclude_any=False or against Any) has the tested type inside the branch
-                vm = dict(varmap)
-                vm[t.args[0].id] = env[t.args[1].id]
-            r = ref_block(branch, rel, vm, positions, env, errors)
+            r = ref_block(branch, rel, vm_true if taken else varmap, positions, env, errors)
             if r is not None:
                 return r
             continue
